@@ -10,7 +10,10 @@
 // of a generated Cache.
 // Oracle: the harness' reference merge (fold inputs in path order, later file wins, every file's
 // own tombstones applied to that file's points) compared with the outputs read back through
-// TSMReader, plus validity predicates on the output files.
+// TSMReader, plus validity predicates on the output files. Every compaction runs in its own
+// goroutine under a watchdog: a call that spins (CPU-time criterion, see runCompactionClassified)
+// is abandoned and reported as compaction-does-not-terminate, so that neither the run nor rapid's
+// shrinking of another failure can be wedged by it.
 package c04_compact
 
 import (
@@ -20,7 +23,9 @@ import (
 	"path/filepath"
 	"sort"
 	"strings"
+	"sync"
 	"sync/atomic"
+	"syscall"
 	"testing"
 	"time"
 
@@ -263,10 +268,28 @@ func compareContent(out *output, want map[int][]pt) (string, string) {
 
 const compactDeadline = 60 * time.Second
 
+// hangCPU is the CPU time after which one compaction call over a handful of tiny files counts as
+// non-terminating (a regular call needs well under a millisecond of CPU).
+const hangCPU = 12 * time.Second
+
+// KeyNoTermination: the compaction call never returns (and produces no files).
+const KeyNoTermination = "compaction-does-not-terminate"
+
 var (
 	errCompactionStuck = errors.New("compaction did not finish within the watchdog deadline")
-	stuck              atomic.Bool // set once a compaction was aborted by the watchdog: later cases are skipped
+	stuck              atomic.Bool // set once a compaction was aborted/abandoned by the watchdog: later cases are skipped
+	contentFailed      atomic.Bool // TestPropCompact reported a violation other than non-termination (rapid is shrinking it)
+	hungCases          sync.Map    // case id -> detail of compactions abandoned as non-terminating
 )
+
+// processCPU is the CPU time (user+system) this process has consumed so far.
+func processCPU() time.Duration {
+	var ru syscall.Rusage
+	if err := syscall.Getrusage(syscall.RUSAGE_SELF, &ru); err != nil {
+		return 0
+	}
+	return time.Duration(ru.Utime.Nano() + ru.Stime.Nano())
+}
 
 type compactCase struct {
 	Layout  layout  `json:"layout"`
@@ -393,6 +416,12 @@ func staleByUnstableSort(out *output, want map[int][]pt, vers map[int]map[int64]
 // instead of as a violation.
 func runCompactionClassified(l layout, mode string, ppb, from, to int, classify bool, wantFiles int) (string, string, any, bool, error) {
 	cc := compactCase{Layout: l, Mode: mode, PPB: ppb, From: from, To: to}
+	caseID := fmt.Sprintf("%s|%s|%d|%d-%d", l.canon(), mode, ppb, from, to)
+	if v, ok := hungCases.Load(caseID); ok {
+		// replay of a case whose compaction was already found spinning (rapid re-runs a failing
+		// case): same verdict, without starting another non-terminating goroutine
+		return KeyNoTermination, v.(string), cc, false, nil
+	}
 	dir, err := scratch.Dir("c04-")
 	if err != nil {
 		return "", "", nil, false, err
@@ -402,7 +431,14 @@ func runCompactionClassified(l layout, mode string, ppb, from, to int, classify 
 	if err != nil {
 		return "", "", nil, false, err
 	}
-	defer fs.Close()
+	abandoned := false
+	defer func() {
+		// a compaction goroutine that never returns keeps its reader references: FileStore.Close
+		// would wait for them forever
+		if !abandoned {
+			fs.Close()
+		}
+	}()
 	c := tsm1.NewCompactor()
 	c.Dir = dir
 	c.FileStore = fs
@@ -418,24 +454,72 @@ func runCompactionClassified(l layout, mode string, ppb, from, to int, classify 
 			maxGen, maxSeq = f.Gen, f.Seq
 		}
 	}
-	var files []string
-	// watchdog: a compaction of a few hundred points that runs for a minute is stuck; closing the
-	// compactor aborts its write loop. Wall-clock based, hence reported as inconclusive only.
-	var timedOut atomic.Bool
+	// The compaction runs in its own goroutine under a watchdog. Compactor.Close only interrupts
+	// the write loop between blocks; a loop that spins inside one KeyIterator.Next call (the merge
+	// of one key's blocks) can not be interrupted at all, so the goroutine is abandoned then.
+	//   - spinning: the process burned hangCPU seconds of CPU time during this one call although
+	//     the inputs hold a few hundred points (microseconds of work) and nothing else runs in the
+	//     process: independent of machine load, reported as a violation (no files are produced);
+	//   - wall-clock deadline without that much CPU time: the machine is overloaded or the call
+	//     blocks: inconclusive only.
+	type compactResult struct {
+		files []string
+		err   error
+	}
+	done := make(chan compactResult, 1)
 	deadline := compactDeadline
 	if wantFiles > 1 {
 		deadline *= 2
 	}
-	timer := time.AfterFunc(deadline, func() { timedOut.Store(true); c.Close() })
-	if mode == "fast" {
-		files, err = c.CompactFast(paths, zap.NewNop(), ppb)
-	} else {
-		files, err = c.CompactFull(paths, zap.NewNop(), ppb)
+	cpuRule := wantFiles == 1 && !stuck.Load() // the roll-over case is legitimately CPU heavy; a leaked spinner pollutes the CPU clock
+	t0, cpu0 := time.Now(), processCPU()
+	go func() {
+		var r compactResult
+		if mode == "fast" {
+			r.files, r.err = c.CompactFast(paths, zap.NewNop(), ppb)
+		} else {
+			r.files, r.err = c.CompactFull(paths, zap.NewNop(), ppb)
+		}
+		done <- r
+	}()
+	var res compactResult
+	hung := ""
+	tick := time.NewTicker(100 * time.Millisecond)
+W:
+	for {
+		select {
+		case res = <-done:
+			break W
+		case <-tick.C:
+			if cpu := processCPU() - cpu0; cpuRule && cpu >= hangCPU {
+				hung = fmt.Sprintf("%s compaction (pointsPerBlock=%d) of %d small files did not return: the process spent %.1fs of CPU time in this one call (%.1fs wall) and Compactor.Close did not abort it", mode, ppb, len(paths), cpu.Seconds(), time.Since(t0).Seconds())
+				break W
+			}
+			if time.Since(t0) >= deadline {
+				hung = "wall"
+				break W
+			}
+		}
 	}
-	timer.Stop()
-	if timedOut.Load() {
-		return "", "", nil, false, errCompactionStuck
+	tick.Stop()
+	if hung != "" {
+		c.Close()
+		select {
+		case res = <-done: // aborted between blocks: slow but progressing
+			if hung != "wall" {
+				hung = "wall"
+			}
+		case <-time.After(5 * time.Second):
+			abandoned = true
+		}
+		if hung == "wall" {
+			return "", "", nil, false, errCompactionStuck
+		}
+		stuck.Store(true)
+		hungCases.Store(caseID, hung)
+		return KeyNoTermination, hung, cc, false, nil
 	}
+	files, err := res.files, res.err
 	if err != nil {
 		return "compaction-error", err.Error(), cc, false, nil
 	}
@@ -544,6 +628,17 @@ type compactFacts struct {
 	sharedKey    bool
 	fullBlocks   bool // some input block holds exactly ppb points
 	oversized    bool // some input block holds more than ppb points
+	// bridge: a newer file's block C overlaps two blocks A, B (A before B) of the same key in one
+	// older file: after the compactor's block sort (A, B, C) the blocks of the key are not ordered
+	// by start time, and C belongs to A's merge window although B (outside it) precedes C.
+	bridge bool
+	// bridgeFull: as bridge, and A alone holds at least ppb points, so A's merge window reaches the
+	// points-per-block limit and is written out before the following window is merged.
+	bridgeFull bool
+}
+
+func overlap(a, b []pt) bool {
+	return a[0].T <= b[len(b)-1].T && b[0].T <= a[len(a)-1].T
 }
 
 func facts(sub []fileSpec, ppb int) compactFacts {
@@ -595,6 +690,32 @@ func facts(sub []fileSpec, ppb int) compactFacts {
 			}
 		}
 	}
+	for i, older := range sub {
+		for _, okb := range older.Keys {
+			for _, newer := range sub[i+1:] {
+				for _, nkb := range newer.Keys {
+					if nkb.Key != okb.Key {
+						continue
+					}
+					for _, c := range nkb.Blocks {
+						for a := 0; a < len(okb.Blocks); a++ {
+							if !overlap(okb.Blocks[a], c) {
+								continue
+							}
+							for b := a + 1; b < len(okb.Blocks); b++ {
+								if overlap(okb.Blocks[b], c) {
+									f.bridge = true
+									if len(okb.Blocks[a]) >= ppb {
+										f.bridgeFull = true
+									}
+								}
+							}
+						}
+					}
+				}
+			}
+		}
+	}
 	for k, n := range perKey {
 		if n > f.maxBlocks {
 			f.maxBlocks = n
@@ -610,6 +731,7 @@ func TestPropCompact(t *testing.T) {
 	rec.Assume("the harness reference merge (fold inputs in path order, later file wins on equal timestamps, each file's tombstones remove that file's points only) is the meaning of 'logical content'")
 	rec.Assume("inputs as the writer/compactor produce them: keys sorted in a file, a key's blocks sorted and non-overlapping within a file, one value type per key; files passed to the compactor in path order and as whole generations (what the planner guarantees, C05)")
 	rec.Assume("'no block exceeds the requested points-per-block' is checked for blocks the compactor builds; input blocks that already exceed the requested size may be copied unchanged (documented in tsmBatchKeyIterator.combine: 'if this block is already full, just add it as is')")
+	rec.Assume("termination: one CompactFull/CompactFast call over at most 8 files holding a few hundred points that has consumed 12 s of process CPU time (nothing else runs in the test process) and does not return after Compactor.Close is treated as non-terminating and reported as a violation (no output is produced); a call that only exceeds the 60 s wall-clock deadline is reported as inconclusive")
 	rec.Check(t, 600, 8000, func(rt *rapid.T) {
 		ppb := rapid.SampledFrom([]int{2, 3, 3, 5, 5, 1000}).Draw(rt, "ppb")
 		mode := rapid.SampledFrom([]string{"full", "full", "fast"}).Draw(rt, "mode")
@@ -632,7 +754,7 @@ func TestPropCompact(t *testing.T) {
 			}
 		}
 		fc := facts(l.Files[from:to+1], ppb)
-		if stuck.Load() {
+		if _, replayOfHung := hungCases.Load(fmt.Sprintf("%s|%s|%d|%d-%d", l.canon(), mode, ppb, from, to)); stuck.Load() && !replayOfHung {
 			return
 		}
 		key, detail, cj, known, err := runCompactionClassified(l, mode, ppb, from, to, true, 1)
@@ -686,6 +808,12 @@ func TestPropCompact(t *testing.T) {
 		if fc.oversized {
 			rec.Class("input-block:above-ppb")
 		}
+		if fc.bridge {
+			rec.Class("span:newer-block-bridges-two-blocks-of-an-older-file")
+		}
+		if fc.bridgeFull {
+			rec.Class("span:bridge-and-first-window-reaches-ppb")
+		}
 		if l.LiveTombs {
 			rec.Class("tomb-path:live-readers")
 		} else {
@@ -697,7 +825,16 @@ func TestPropCompact(t *testing.T) {
 		if rec.WantSample() && fc.dupDifferent && fc.partialTomb {
 			rec.Sample(map[string]any{"layout": l, "mode": mode, "ppb": ppb, "from": from, "to": to})
 		}
+		if key == KeyNoTermination && contentFailed.Load() {
+			// found while rapid minimises an earlier content/layout failure: keep that failure as
+			// the reported one (the abandoned goroutine keeps spinning; further candidates are skipped)
+			rec.Class("hang-while-shrinking-another-failure")
+			return
+		}
 		if key != "" {
+			if key != KeyNoTermination {
+				contentFailed.Store(true)
+			}
 			rec.Fail(rt, "TestPropCompact", key, fmt.Sprintf("%s compaction, pointsPerBlock=%d, files %d..%d: %s", mode, ppb, from, to, detail), cj)
 		}
 	})
